@@ -433,6 +433,10 @@ def incUpdate (u : Nat) (av : Entry) (s : BeState) : Option BeState :=
   | none => none
   | some (s1, pre) => modify [(pre, ⟨pre.id, u, av⟩)] s1
 
+/-- `Backend::new` on an existing database (`IdlArcSqlite::setup`, idl_arc_sqlite.rs l.1240): the cached maximum
+entry id is re-read from `id2entry` (`SELECT MAX(id)`), so after a restart the id of a reaped entry is used again -/
+def reopen (s : BeState) : BeState := { s with maxid := s.ents.foldl (fun m e => max m e.id) 0 }
+
 /-- the committed write operations -/
 inductive Op where
   | create (es : List (Nat × Entry))
@@ -442,6 +446,7 @@ inductive Op where
   | reindex
   | upgradeReindex (v : Int)
   | incUpdate (u : Nat) (av : Entry)
+  | reopen
 
 /-- a failed operation aborts its transaction: nothing is committed -/
 def step (s : BeState) : Op → BeState
@@ -452,6 +457,7 @@ def step (s : BeState) : Op → BeState
   | .reindex => (reindex s).getD s
   | .upgradeReindex v => (upgradeReindex v s).getD s
   | .incUpdate u av => (incUpdate u av s).getD s
+  | .reopen => reopen s
 
 def run (s : BeState) (ops : List Op) : BeState := ops.foldl step s
 
